@@ -27,7 +27,7 @@ type ReadOpts struct {
 	MaxLe       int // 0 = library default (256)
 	SkipImages  bool
 	SkipPace    bool
-	PwKind      int // 0 MRZ key fields, 1 full MRZ, 2 CAN
+	PwKind      int // 0 MRZ key fields, 1 full MRZ, 2 CAN, 3 none (chip without access control)
 	WrongPw     bool
 	LibSeed     []byte
 	AAChallenge []byte
@@ -47,6 +47,8 @@ func Password(p *persona.Persona, kind int) (*password.Password, error) {
 		return password.NewPasswordMrz(p.MRZ)
 	case 2:
 		return password.NewPasswordCan(p.CAN), nil
+	case 3:
+		return password.NewPasswordNil(), nil // a chip without access control
 	}
 	return password.NewPasswordMrzi(p.DocNo, p.DOB, p.Expiry)
 }
